@@ -103,6 +103,11 @@ class Operation(ElementBase):
     def project_edge(self, corner_1: int, corner_2: int, label: ProjectToType) -> None:
         """Replace an edge between given corners with a Projected one
         or add geometry to an already projected edge"""
+        if not (0 <= corner_1 < 8 and 0 <= corner_2 < 8):
+            raise ValueError(
+                f"Invalid corner 1 ({corner_1}) or corner 2 ({corner_2}) index. Use operation-local indexing (0...7)."
+            )
+
         # decide where the required edge sits
         loc = edge_map[corner_1][corner_2]
         corner = loc.start_corner
